@@ -3,8 +3,10 @@ import Driver.Recovery
 import Driver.H3Validate
 import Driver.Codec
 import Driver.CloseTimer
+import Driver.Cid
 
 structure World where
+  cid : Drv.CidW := {}
   close : Drv.CloseW := {}
   codec : Drv.CodecW := {}
   h3v : Drv.H3VW := {}
@@ -32,6 +34,9 @@ def step (w : World) (line : String) : World × String :=
     else if t.startsWith "close." then
       let (s, o) := Drv.stepClose w.close toks
       ({ w with close := s }, o)
+    else if t.startsWith "cid." then
+      let (s, o) := Drv.stepCid w.cid toks
+      ({ w with cid := s }, o)
     else (w, "bad-op")
 
 partial def loop (hin hout : IO.FS.Stream) (w : World) : IO Unit := do
